@@ -132,7 +132,7 @@ theorem mkSlc_sstep (x : Expr) (pos size : Nat) (hx : WF x) (hp : Plain x) (hs :
       simp only [ideal] at this ⊢
       rw [this]
       congr 1 <;> omega
-    · exact SPost_error _ _ _
+    · exact SPost_pure (by simp only [Plain]; exact ⟨Plain_slcEty hp, hp⟩) (by simp only [ideal]; rfl)
   · exact SPost_ok (by simp only [Plain]; exact ⟨Plain_slcEty hp, hp⟩) (by simp only [ideal]; rfl)
 
 theorem slicer_sstep (x : Expr) (pos size : Nat) (hx : WF x) (hp : Plain x) (hs : 0 < size) (hps : pos + size ≤ x.size) :
